@@ -594,6 +594,15 @@ class SetAlg:
         if c == FALSE:
             return False
         h = c[0]
+        if h == "COND" and len(c) == 2 and isinstance(c[1], tuple) and len(c[1]) == 2 and isinstance(c[1][0], tuple) and isinstance(c[1][1], tuple) \
+                and len(c[1][1]) == 1 << len(c[1][0]):
+            # a canonical condition (sorted atoms + truth table) read back as a formula over its atoms
+            atoms, tb = c[1]
+            rows = []
+            for k, bits in enumerate(itertools.product([False, True], repeat=len(atoms))):
+                if tb[k]:
+                    rows.append(f_and(*[(("atom", a) if b else f_not(("atom", a))) for a, b in zip(atoms, bits)]))
+            return f_or(*rows) if rows else False
         if h == "not":
             return f_not(self.cond(c[1]))
         if h == "and":
